@@ -127,6 +127,7 @@ func cmdUnit(args []string) int {
 	dump := fs.String("dump", "", "write SMT scripts to this directory")
 	timeout := fs.Int("timeout", 10, "per-obligation timeout (s)")
 	verbose := fs.Bool("v", false, "verbose")
+	edges := fs.Bool("edges", false, "report CFG edges that are infeasible under the contract (vacuity audit)")
 	fs.Parse(args)
 	cs, err := loadAllContracts(*root, modPath, *verif+"/specs")
 	if err != nil {
@@ -185,6 +186,7 @@ func cmdUnit(args []string) int {
 		return 2
 	}
 	p.Contracts = cs
+	p.EdgeCovers = *edges
 	p.expandSweeps()
 	fmt.Printf("loaded %v in %.1fs\n", pkgs, time.Since(t0).Seconds())
 	rc := 0
@@ -196,6 +198,12 @@ func cmdUnit(args []string) int {
 		}
 		fmt.Printf("UNIT %s: %d queries, vc max %d bytes, solve %.2fs\n", ur.Name, ur.Queries, ur.VCBytes, ur.SolveSecs)
 		for _, o := range ur.Obligs {
+			if o.Group == "edgecover" {
+				if o.Status == "vacuous" {
+					fmt.Printf("  INFEASIBLE EDGE %s at %s\n", o.Name, o.Pos)
+				}
+				continue
+			}
 			mark := "ok  "
 			if o.Status != "discharged" {
 				mark = "FAIL"
